@@ -198,6 +198,37 @@ POOL = [
     ["{%", "%}", "{{", "}}", "{##", "##}"],
     ["A%", "%A", "B{", "}B"],
 ]
+
+
+def _shifted(delims: list) -> list:
+    """Delimiter sets that differ from ``delims`` by one character moved across the boundary between two delimiters.
+
+    Written one after the other (in whatever order) such sets spell the same text, which is what a cache key built by
+    joining the strings cannot tell apart."""
+    out = []
+    n = len(delims)
+    for i in range(n):
+        for j in range(n):
+            if i == j:
+                continue
+            a, b = delims[i], delims[j]
+            if len(a) >= 2:
+                d = list(delims)
+                d[i], d[j] = a[:-1], a[-1] + b
+                out.append(d)
+                d = list(delims)
+                d[i], d[j] = a[1:], b + a[0]
+                out.append(d)
+    uniq = []
+    for d in out:
+        if d not in uniq and len(set(d)) == len(d):
+            uniq.append(d)
+    return uniq
+
+
+SIBLINGS: dict = {}
+ALIASES: dict = {}  # the siblings that spell the same text when joined in the order the library's own signature lists them
+N_BASE = len(POOL)
 # small template ASTs; "src" nodes are verbatim and delimiter-free unless built from placeholders
 T = PH
 TEMPLATES = [
@@ -217,7 +248,20 @@ TEMPLATES = [
     f"{T.ts} echo a {T.te}|{T.ts} if b {T.te}{T.ts} echo 'in' {T.te}{T.ts} endif {T.te}",
 ]
 DATAS = [{"a": "A1", "b": True}, {"a": 2, "b": False}]
+
+
+def _init_siblings() -> None:
+    for i in (1, 6, 9, 2, 7):
+        usable = []
+        for d in _shifted(POOL[i]):
+            # keep the sets under which at least five of the history templates can be written without a collision
+            if sum(1 for t in TEMPLATES if not substitute(t, d)[1]) >= 5:
+                usable.append(d)
+        SIBLINGS[i] = list(range(len(POOL), len(POOL) + len(usable)))
+        ALIASES[i] = [len(POOL) + k for k, d in enumerate(usable) if "".join(d) == "".join(POOL[i])]
+        POOL.extend(usable)
 PARTIAL = f"P{T.os} a {T.oe}"
+_init_siblings()
 
 
 def _mytag_class():
@@ -260,11 +304,36 @@ def _loud_echo_class():
     return LoudEchoTag
 
 
+class _Implicit:
+    """The environment that liquid.Template() makes (or re-uses) for one set of keyword arguments."""
+
+    def __init__(self, kw: dict):
+        self.kw = kw
+
+    def from_string(self, src: str):
+        from liquid import Template
+
+        return Template(src, **self.kw)
+
+
 def build_env(ecfg: dict):
     delims = POOL[ecfg["delims"]]
+    if ecfg.get("implicit"):
+        from liquid import Mode
+
+        kw: dict = {
+            "extra": ecfg["extra"], "tolerance": {"strict": Mode.STRICT, "lax": Mode.LAX, "warn": Mode.WARN}[ecfg["mode"]],
+            "undefined": envs.undefined_of(ecfg.get("undef", "default")), "strict_filters": ecfg.get("sf", True),
+            "tag_start_string": delims[0], "tag_end_string": delims[1], "statement_start_string": delims[2], "statement_end_string": delims[3],
+        }
+        if len(delims) > 4:
+            kw.update(template_comments=True, comment_start_string=delims[4], comment_end_string=delims[5])
+        return _Implicit(kw)
     partial_src, _ = substitute(PARTIAL, delims)
     cfg = cfg_for(delims, mode=ecfg["mode"], extra=ecfg["extra"], twice=False)
     cfg.pop("flags", None)  # plain Environment instances of one and the same class (make_env subclasses when flags are set)
+    cfg["undefined"] = ecfg.get("undef", "default")
+    cfg["strict_filters"] = ecfg.get("sf", True)
     env = envs.make_env(cfg, {"p": partial_src})
     return env
 
@@ -304,6 +373,8 @@ def run_history(envcfgs: list, ops: list, only: int | None = None) -> dict:
         env = live.get(e)
         if env is None:
             continue
+        if isinstance(env, _Implicit) and kind in ("add_filter", "add_tag", "replace_tag"):
+            continue  # (implicit environments are shared by documentation: registering on one is not a private act)
         if kind == "add_filter":
             env.add_filter("twice", envs.TwiceFilter())
         elif kind == "add_tag":
@@ -339,11 +410,16 @@ def alone(payload):
 
 
 def _clear_caches() -> None:
-    from liquid.lex import get_lexer
-    from liquid.parser import get_parser
+    """Empty every functools cache of the library (whatever it is called today); other memos are only out of reach
+    of the pristine-process comparison."""
+    import sys
 
-    get_lexer.cache_clear()
-    get_parser.cache_clear()
+    for name, mod in list(sys.modules.items()):
+        if name == "liquid" or name.startswith("liquid."):
+            for attr in list(vars(mod).values()):
+                clear = getattr(attr, "cache_clear", None)
+                if callable(clear) and callable(attr) and not isinstance(attr, type):
+                    clear()
 
 
 def eval_history(case) -> Verdict:
@@ -392,7 +468,7 @@ ALPHA = list("{}%#<>[]()|\\^$.*+?/!@&~;=") + ["A", "B", "X", "Z", "-", ":", "_"]
 def gen_delims(r, comments: bool) -> list:
     c = r.random()
     if c < 0.2:
-        base = list(r.choice([p for p in POOL if (len(p) > 4) == comments] or POOL))
+        base = list(r.choice([p for p in POOL[:N_BASE] if (len(p) > 4) == comments] or POOL[:N_BASE]))
         if comments and len(base) == 4:
             base += ["{#", "#}"]
         return base
@@ -472,7 +548,7 @@ def lookalike_cases(draw):
     main = gg.Gen(r, profile()).template()
     for _ in range(r.choice([1, 2, 3])):
         main.insert(r.randint(0, len(main)), {"k": "text", "v": r.choice(["", "a", " "]) + r.choice(sorted(LOOKALIKE)) + r.choice(["", " x ", "y"])})
-    pool = [p for p in POOL[1:] if not any(x in "".join(p) for x in ("{{", "{%", "}}", "%}", "{#"))]
+    pool = [p for p in POOL[1:N_BASE] if not any(x in "".join(p) for x in ("{{", "{%", "}}", "%}", "{#"))]
     d2 = list(r.choice(pool))
     return {"kind": "rewrite", "lookalike": True, "main": main, "partials": {"p": []}, "d1": list(DEFAULT4), "d2": d2[:4], "datas": [gd.DataGen(r).data()]}
 
@@ -486,19 +562,42 @@ def _lookalike_real(case):
 def history_cases(draw):
     r = core.rng(draw)
     k = r.choice([2, 2, 3, 4])
-    envcfgs = [{"delims": r.randrange(len(POOL)), "mode": r.choice(["strict", "strict", "lax"]), "extra": r.random() < 0.7} for _ in range(k)]
-    twins = r.random() < 0.25
+    envcfgs = [{"delims": r.randrange(N_BASE if r.random() < 0.8 else len(POOL)), "mode": r.choice(["strict", "strict", "lax"]), "extra": r.random() < 0.7} for _ in range(k)]
+    for ec in envcfgs:
+        if r.random() < 0.3:
+            ec["undef"] = r.choice(["strict", "strict", "falsy"])
+        if r.random() < 0.3:
+            ec["sf"] = False
+    implicit = r.random() < 0.2
+    if implicit:
+        # templates made by liquid.Template(): one implicit environment per set of keyword arguments
+        for ec in envcfgs:
+            ec["implicit"] = True
+            if ec["delims"] >= N_BASE:
+                ec["delims"] = r.randrange(N_BASE)
+    twins = not implicit and r.random() < 0.25
     if twins:
         # identically configured environments that differ only in what is registered on them afterwards
         envcfgs[1] = dict(envcfgs[0])
     elif r.random() < 0.6:
         # near-identical configurations: the likeliest victims of a cache-key mistake
         envcfgs[1] = dict(envcfgs[0])
-        which = r.choice(["delims", "mode", "extra"])
-        if which == "delims":
+        which = r.choice(["delims", "mode", "extra", "undef", "sf"])
+        if r.random() < 0.25:
+            # one character moved across a delimiter boundary
+            base = r.choice(sorted(k for k in SIBLINGS if SIBLINGS[k]))
+            envcfgs[0]["delims"] = base
+            envcfgs[1] = dict(envcfgs[0], delims=r.choice(ALIASES[base] if ALIASES[base] and r.random() < 0.5 else SIBLINGS[base]))
+            if r.random() < 0.5:
+                envcfgs[0], envcfgs[1] = envcfgs[1], envcfgs[0]
+        elif which == "delims":
             envcfgs[1]["delims"] = r.randrange(len(POOL))
         elif which == "mode":
             envcfgs[1]["mode"] = "lax" if envcfgs[0]["mode"] == "strict" else "strict"
+        elif which == "undef":
+            envcfgs[1]["undef"] = "default" if envcfgs[0].get("undef", "default") != "default" else "strict"
+        elif which == "sf":
+            envcfgs[1]["sf"] = not envcfgs[0].get("sf", True)
         else:
             envcfgs[1]["extra"] = not envcfgs[0]["extra"]
     ops = [["create", e] for e in range(k)]
@@ -506,6 +605,8 @@ def history_cases(draw):
     body = []
     # a history works on one to three templates, so that different environments meet on the same source text
     tids = r.sample(range(len(TEMPLATES)), r.choice([1, 2, 2, 3]))
+    if any("undef" in ec or "sf" in ec for ec in envcfgs) and r.random() < 0.7:
+        tids = [10, *tids[:1]]  # the template that reads a missing variable and applies a missing filter
     if twins:
         what = r.choice(["replace_tag", "replace_tag", "add_tag", "add_filter"])
         body.append([what, r.choice([0, 1])])
@@ -530,8 +631,39 @@ def history_cases(draw):
     return {"kind": "history", "envs": envcfgs, "ops": [first, *body], "isolated": False}
 
 
+def pair_histories():
+    """Two environments (explicit, or the implicit ones of liquid.Template()) that differ in exactly one setting, used in turn."""
+    deltas = [("sf", False), ("undef", "strict"), ("undef", "falsy"), ("mode", "lax"), ("extra", False)]
+    for implicit in (True, False):
+        for base in (0, 1, 4, 6):
+            for key, val in deltas:
+                a = {"delims": base, "mode": "strict", "extra": True}
+                if implicit:
+                    a["implicit"] = True
+                b = dict(a, **{key: val})
+                for tid in (10, 0, 3, 2, 12):
+                    for first in (0, 1):
+                        e0, e1 = first, 1 - first
+                        ops = [["create", e0], ["parse", e0, tid, 0], ["render", e0, 0, 0], ["create", e1], ["parse", e1, tid, 0],
+                               ["render", e0, 0, 1], ["render", e1, 0, 0], ["parse", e0, tid, 1], ["render", e0, 1, 0], ["render", e1, 0, 1]]
+                        yield {"kind": "history", "envs": [a, b], "ops": ops, "isolated": False}
+            for sidx in SIBLINGS.get(base, []):
+                a = {"delims": base, "mode": "strict", "extra": True}
+                b = dict(a, delims=sidx)
+                if implicit:
+                    a["implicit"] = b["implicit"] = True
+                for tid in (0, 1):
+                    for first in (0, 1):
+                        e0, e1 = first, 1 - first
+                        ops = [["create", e0], ["create", e1], ["parse", e0, tid, 0], ["parse", e1, tid, 0], ["render", e0, 0, 0], ["render", e1, 0, 0]]
+                        yield {"kind": "history", "envs": [a, b], "ops": ops, "isolated": True}
+
+
 def campaign(ctx: core.Ctx, tier: str, shard: int, nshards: int) -> None:
     quick = tier == "quick"
+    for i, case in enumerate(pair_histories()):
+        if i % nshards == shard:
+            ctx.run(case, enumerated=True)
     core.drive(rewrite_cases(), ctx.run, n=(3200 if quick else 80000) // nshards, seed=core.sub_seed(ctx.seed, shard))
     core.drive(lookalike_cases(), ctx.run, n=(800 if quick else 16000) // nshards, seed=core.sub_seed(ctx.seed, shard, 1))
 
@@ -541,7 +673,9 @@ def campaign(ctx: core.Ctx, tier: str, shard: int, nshards: int) -> None:
         # every sixteenth history is compared with a pristine forked process (no memo or cache of any kind can be
         # shared with it), the others with a cache-cleared re-run in this process
         count[0] += 1
-        if count[0] % 16 == 1:
+        sib = any(a["delims"] in SIBLINGS.get(b["delims"], ()) for a in case["envs"] for b in case["envs"])
+        if count[0] % 16 == 1 or sib:
+            # (delimiter sets one boundary shift apart: a memo keyed by joined strings need not be a functools cache)
             case = dict(case, isolated=True)
         ctx.run(case)
 
